@@ -1,0 +1,84 @@
+//go:build verif
+
+package rang3
+
+// Contracts for the deductive checker in /verif (comment-only file; adds no code).
+//
+//@ pure func wf(r Range) bool = 0 <= r.B && r.B <= r.E && r.E <= MaxRune
+//@ opaque func in(p rune, r Range) bool = r.B <= p && p <= r.E
+//
+//@ func Range.Contains
+//@   pure
+//@   ensures result <==> (r.B <= o.B && o.E <= r.E)
+//@   ensures wf(o) ==> (result <==> forall p rune :: in(p, o) ==> in(p, r))
+//
+//@ func Range.Intersects
+//@   pure
+//@   requires wf(r) && wf(o)
+//@   ensures result <==> (exists p rune :: in(p, r) && in(p, o))
+//@   ensures result <==> (r.B <= o.E && o.B <= r.E)
+//
+//@ func Range.Touches
+//@   pure
+//@   requires wf(r) && wf(o)
+//@   ensures result <==> (r.B <= o.E + 1 && o.B <= r.E + 1)
+//
+//@ func Compare
+//@   pure
+//@   ensures result == -1 || result == 0 || result == 1
+//@   ensures result < 0 <==> (a.B < b.B || (a.B == b.B && a.E < b.E))
+//@   ensures result == 0 <==> a == b
+//
+//@ pure func cover(p rune, s []Range) bool = exists i int :: 0 <= i && i < len(s) && in(p, s[i])
+//@ pure func allwf(s []Range) bool = forall i int :: 0 <= i && i < len(s) ==> wf(s[i])
+//
+//@ ghost func permA(i int) int
+//@ ghost func permAinv(i int) int
+//@ ghost func permB(i int) int
+//@ ghost func permBinv(i int) int
+//
+//@ func Flatten$3
+//@   pure
+//@   ensures result == ite(a < b, a, b)
+//@ func Flatten$4
+//@   pure
+//@   ensures result == ite(a > b, a, b)
+//
+//@ func Flatten
+//@   requires allwf(ranges)
+//@   calls onChange(oa, ob, n) requires wf(n) && (forall p rune :: in(p, n) <==> in(p, oa) || in(p, ob))
+//@   ensures allwf(result)
+//@   ensures forall i, j int :: 0 <= i && i < j && j < len(result) ==> result[i].E + 1 < result[j].B
+//@   ensures forall p rune :: cover(p, result) ==> old(cover(p, ranges))
+//@   ensures forall p rune :: old(cover(p, ranges)) ==> cover(p, result)
+//@   ensures len(result) <= len(ranges)
+//@   ensures fresh(result) || len(result) == 0
+//@   modifies ranges[:]
+//
+//   The two library sorts are assumed to return a rearrangement of the slice
+//   (permA/permB are the Skolem functions of "same elements") that is ordered
+//   with respect to the comparator that was passed.
+//@   call SortFunc 0 modifies ranges[:]
+//@   call SortFunc 0 assume forall i int :: {ranges[i]} 0 <= i && i < len(ranges) ==> 0 <= permA(i) && permA(i) < len(ranges) && ranges[i] == old(ranges[permA(i)])
+//@   call SortFunc 0 assume forall j int :: {old(ranges[j])} 0 <= j && j < len(ranges) ==> 0 <= permAinv(j) && permAinv(j) < len(ranges) && ranges[permAinv(j)] == old(ranges[j])
+//@   call Slice 0 modifies ranges[:]
+//@   call Slice 0 assume forall i int :: {ranges[i]} 0 <= i && i < len(ranges) ==> 0 <= permB(i) && permB(i) < len(ranges) && ranges[i] == old(ranges[permB(i)])
+//@   call Slice 0 assume forall j int :: {old(ranges[j])} 0 <= j && j < len(ranges) ==> 0 <= permBinv(j) && permBinv(j) < len(ranges) && ranges[permBinv(j)] == old(ranges[j])
+//@   call Slice 0 assume forall i, j int :: 0 <= i && i < j && j < len(ranges) ==> !(ranges[j].B < ranges[i].B || (ranges[j].B == ranges[i].B && ranges[j].E < ranges[i].B))
+//
+//@   let S = ranges2.elems
+//@   let m = len(ranges2.elems)
+//@   let i = rangeindex + 1
+//@   loop 0 invariant -1 <= rangeindex && rangeindex < len(ranges) || (len(ranges) == 0 && rangeindex == -1)
+//@   loop 0 invariant forall k int :: 0 <= k && k < len(ranges) ==> ranges[k] == pre(ranges[k])
+//@   loop 0 invariant unchangedOld(elems(Range), ranges[:])
+//@   loop 0 invariant allwf(ranges)
+//@   loop 0 invariant forall a, b int :: {ranges[a], ranges[b]} 0 <= a && a < b && b < len(ranges) ==> ranges[a].B <= ranges[b].B
+//@   loop 0 invariant fresh(S) || cap(S) == 0
+//@   loop 0 invariant 0 <= m && m <= i && (i > 0 ==> m > 0)
+//@   loop 0 invariant allwf(S)
+//@   loop 0 invariant forall k, l int :: 0 <= k && k < l && l < m ==> S[k].E + 1 < S[l].B
+//@   loop 0 invariant m > 0 ==> forall j int :: {ranges[j]} i <= j && j < len(ranges) ==> S[m-1].B <= ranges[j].B
+//@   loop 0 invariant forall p rune, k int :: {in(p, S[k])} 0 <= k && k < m && in(p, S[k]) ==> exists j int :: 0 <= j && j < i && in(p, ranges[j])
+//@   loop 0 invariant forall p rune, j int :: {in(p, ranges[j])} 0 <= j && j < i && in(p, ranges[j]) ==> exists k int :: 0 <= k && k < m && in(p, S[k])
+//@   loop 0 decreases len(ranges) - rangeindex
